@@ -751,6 +751,7 @@ def r10l_skip_predicate_exact(ctx):
                        "case-sensitive file system (`Build/`, `Env/`): the test files below such a directory are never indexed")
     crate = ctx.bin
     n = 0
+    preds = set()
     for f in crate.real_fns():
         if f.kind not in ("fn", "method") or f.ret != "bool":
             continue
@@ -781,7 +782,26 @@ def r10l_skip_predicate_exact(ctx):
             r.violate(key, "%s folds the case of the name (%s) before matching the ignore table" % (f.id, fold))
         else:
             r.ok(sample={"ignore_predicate": f.id.split("::")[-1], "table_size": len(lits)})
+        preds.add(f.id)
     r.floor("directory-ignore predicates", n, 1)
+    # who may consult it: only the workspace walk, where names are components of root-relative paths
+    walk = discovery_fn(ctx)
+    m = 0
+    if walk is not None:
+        for g in crate.real_fns():
+            for bb, c in g.calls():
+                used = c.get("res") in preds or any((op_const(a) or {}).get("res") in preds for a in c["args"] if isinstance(a, list))
+                if not used:
+                    continue
+                m += 1
+                if g.root == walk.id or g.root in preds:
+                    r.ok()
+                else:
+                    r.violate("R10l|%s|ignore predicate outside the walk" % g.root,
+                              "%s consults the directory-ignore table at %s: outside the workspace walk paths are absolute, so an "
+                              "ancestor of the workspace named like an ignored directory (`build`, `env`, `vendor`, ...) changes the "
+                              "result" % (g.root, crate.span_str(c["span"])))
+        r.floor("consultations of the ignore predicate", m, 2)
     return r
 
 
